@@ -11,7 +11,7 @@ CONSTANTS
   ScaleKs <- K_two
   Kinds = {"list", "array"}
   PerturbNames <- N_base
-  RegPool <- Regs2
+  RegPool <- Regs2s
   Keys = {"energy"}
   HelperNames = {"linspace"}
   Plan <- Plan_inv2
